@@ -2,7 +2,8 @@
 (* code -> spec for the pipe: runs of the REAL InspectWrapper over real        *)
 (* inspectors and real content (optionally with a fault injected into one     *)
 (* inspector at one read) recorded at the grain of InspectWrapper.tla --       *)
-(* start / feed(i) in the order it happened / end | raise / exhaust / close -- *)
+(* start / feed(i) in the order it happened / end | raise / exhaust / close /  *)
+(* finish(i) --                                                               *)
 (* and validated against its actions.  The scripts are read off the run:       *)
 (* failAt[i] = read index at which i's eat_chunk raised; for the expected      *)
 (* format, ecomplete = first read after which it was complete without          *)
@@ -47,6 +48,9 @@ TNext == /\ l <= Len(T.ev) /\ l' = l + 1 /\ UNCHANGED tid
                 /\ UNCHANGED <<failAt, completeAt, match, consumed, delivered, errored, fed, phase, exc, pending, finishedI, closed>>)
             \/ (Ev.op = "exhaust" /\ TExhaust)
             \/ (Ev.op = "close" /\ W!Close)
+            \* an inspector's finish() is only ever called as part of Exhaust / Close
+            \/ (Ev.op = "finish" /\ Ev.i \in finishedI
+                /\ UNCHANGED <<failAt, completeAt, match, consumed, delivered, errored, fed, phase, exc, pending, finishedI, closed>>)
 TSpec == TInit /\ [][TNext]_tvars
 
 Done == (l = Len(T.ev) + 1) => PrintT(<<"done", tid>>)
